@@ -28,6 +28,8 @@ CONSTANTS
   FailSaves = FALSE
   Focus = TRUE
   Record = TRUE
+  Marking = FALSE
+  WindAt = 34
   Gaps = {}
   Bugs = {}
   D = 48
